@@ -32,11 +32,13 @@ const (
 )
 
 func shrink(tb tb, deadline time.Time, rec recordedBits, err *testError, prop func(*T)) ([]uint64, *testError) {
+	lastRun := append([]uint64(nil), rec.data...)
 	rec.prune()
 
 	s := &shrinker{
 		tb:      tb,
 		rec:     rec,
+		lastRun: lastRun,
 		err:     err,
 		prop:    prop,
 		visBits: []recordedBits{rec},
@@ -45,6 +47,15 @@ func shrink(tb tb, deadline time.Time, rec recordedBits, err *testError, prop fu
 	}
 
 	buf, err := s.shrink(deadline)
+
+	if compareData(buf, s.lastRun) != 0 {
+		// buf is the pruned form of the last run and has not been executed itself: what was
+		// pruned can matter after all (a Cleanup function registered by a rejected attempt)
+		err1 := checkOnce(newT(tb, newBufBitStream(buf, false), false, nil), prop)
+		if err1 == nil || err1.isInvalidData() || traceback(err1) != traceback(err) {
+			buf = s.lastRun
+		}
+	}
 
 	if flags.debugvis {
 		name := fmt.Sprintf("vis-%v.html", strings.Replace(tb.Name(), "/", "_", -1))
@@ -66,6 +77,7 @@ func shrink(tb tb, deadline time.Time, rec recordedBits, err *testError, prop fu
 type shrinker struct {
 	tb      tb
 	rec     recordedBits
+	lastRun []uint64 // the data of the run s.rec was recorded from, before pruning
 	err     *testError
 	prop    func(*T)
 	visBits []recordedBits
@@ -273,6 +285,7 @@ func (s *shrinker) accept(buf []uint64, label string, format string, args ...any
 	s2 := newBufBitStream(buf, true)
 	err2 := checkOnce(newT(s.tb, s2, flags.debug && flags.verbose, nil), s.prop)
 	s.rec = s2.recordedBits
+	s.lastRun = append([]uint64(nil), s.rec.data...)
 	s.rec.prune()
 	assert(compareData(s.rec.data, buf) <= 0)
 	if flags.debugvis {
